@@ -22,7 +22,7 @@ import tlz as toolz
 
 import dask
 from dask import config
-from dask._task_spec import GraphNode
+from dask._task_spec import GraphNode, TaskRef
 from dask.base import clone_key, flatten, is_dask_collection
 from dask.core import keys_in_tasks, reverse_dict
 from dask.tokenize import normalize_token, tokenize
@@ -235,14 +235,25 @@ class Layer(Graph):
 
         is_leaf: bool
 
-        def clone_value(o):
+        def clone_value(o, new_key=None):
             """Variant of distributed.utils_comm.subs_multiple, which allows injecting
             bind_to
             """
             nonlocal is_leaf
 
             typ = type(o)
-            if typ is tuple and o and callable(o[0]):
+            if isinstance(o, GraphNode):
+                # Task objects reference other keys through TaskRef / dependencies
+                subs = {k: clone_key(k, seed) for k in o.dependencies if k in keys}
+                if subs:
+                    is_leaf = False
+                return o.substitute(subs, key=new_key)
+            elif isinstance(o, TaskRef):
+                if o.key not in keys:
+                    return o
+                is_leaf = False
+                return TaskRef(clone_key(o.key, seed))
+            elif typ is tuple and o and callable(o[0]):
                 return (o[0],) + tuple(clone_value(i) for i in o[1:])
             elif typ is list:
                 return [clone_value(i) for i in o]
@@ -264,7 +275,7 @@ class Layer(Graph):
             if key in keys:
                 key = clone_key(key, seed)
                 is_leaf = True
-                value = clone_value(value)
+                value = clone_value(value, key)
                 if bind_to is not None and is_leaf:
                     value = (chunks.bind, value, bind_to)
                     bound = True
